@@ -244,20 +244,14 @@ Proof.
   pose proof (single_retry evs s t th R Ht). lia.
 Qed.
 
-(* ---- one stream per peer, as long as no sender record is orphaned ----------- *)
-(* A sender record leaves the map while still usable in two ways: OnDisconnect
-   (EDisc) and a failed Lock(ctx) in prepOrInvalidate (ELockFail).  Without
-   those events every valid sender is the mapped one. *)
-Definition orphaning (e : event) : bool := match e with EDisc _ | ELockFail _ => true | _ => false end.
+(* ---- a sender whose prepOrInvalidate failed after taking the lock is invalidated ---- *)
+(* Since d646d02 the pc PFailed is reached only after invalidate(); the flag is never cleared. *)
+Definition failed_inv (s : state) : Prop :=
+  forall t th sd e, mget (threads s) t = Some th -> t_pc th = PFailed sd e ->
+                    option_map sd_invalid (nth_error (senders s) sd) = Some true.
 
-Record mapped (s : state) : Prop := {
-  m_valid : forall sd x, nth_error (senders s) sd = Some x -> sd_invalid x = false ->
-            mget (smap s) (sd_peer x) = Some sd;
-  m_failed : forall t th sd e, mget (threads s) t = Some th -> t_pc th = PFailed sd e ->
-             option_map sd_invalid (nth_error (senders s) sd) = Some true }.
-
-Lemma mapped_init : mapped init.
-Proof. split; simpl; intros; try discriminate. destruct sd; discriminate. Qed.
+Lemma failed_init : failed_inv init.
+Proof. unfold failed_inv. simpl. intros; discriminate. Qed.
 
 Ltac satm := repeat match goal with
   | Mv : forall sd x, nth_error _ sd = Some x -> sd_invalid x = false -> _,
@@ -266,14 +260,62 @@ Ltac satm := repeat match goal with
     H : mget (threads _) _ = Some ?th, H0 : t_pc ?th = PFailed _ _ |- _ => learn (Mf _ _ _ _ H H0)
   end.
 
-Lemma step_mapped s e s' : Inv s -> mapped s -> orphaning e = false -> step s e = Some s' -> mapped s'.
+Lemma step_failed s e s' : Inv s -> failed_inv s -> step s e = Some s' -> failed_inv s'.
 Proof.
-  intros I M O H. pose proof (m_valid s M) as Mv. pose proof (m_failed s M) as Mf.
+  intros I Mf H. unfold failed_inv in *.
+  destruct e; start_ev I H.
+  all: try (match goal with Ht : mget (threads _) _ = Some _ |- _ => thread_facts I Ht end).
+  all: intros; unfold has_stream in *; proj; look; repeat caseq; norm; try fin.
+  all: try (satm; norm; fin).
+Qed.
+
+Lemma run_failed evs : forall s s', Inv s -> failed_inv s -> run evs s = Some s' -> failed_inv s'.
+Proof.
+  induction evs as [|e evs IH]; intros s s' I M R; simpl in R.
+  - injection R as <-. exact M.
+  - destruct (step s e) as [s1|] eqn:E; [|discriminate].
+    apply (IH s1 s' (step_inv _ _ _ I E)); auto. eapply step_failed; eauto.
+Qed.
+
+Theorem reachable_failed evs s : run evs init = Some s -> failed_inv s.
+Proof. apply run_failed; [exact Inv_init|exact failed_init]. Qed.
+
+(* A mapped sender leaves the map only through OnDisconnect, or once it has been
+   invalidated (the positive statement that replaces the stream-leak refutation
+   of the tree before d646d02). *)
+Theorem map_entry_stable evs s e s' p sd :
+  run evs init = Some s -> step s e = Some s' -> mget (smap s) p = Some sd -> e <> EDisc p ->
+  mget (smap s') p = Some sd \/ option_map sd_invalid (nth_error (senders s) sd) = Some true.
+Proof.
+  intros R H Hm Ne. pose proof (reachable_inv _ _ R) as I. pose proof (reachable_failed _ _ R) as Mf.
+  unfold failed_inv in Mf.
+  destruct e; start_ev I H.
+  all: try (match goal with Ht : mget (threads _) _ = Some _ |- _ => thread_facts I Ht end).
+  all: proj; look; repeat caseq; norm; try solve [left; fin]; try congruence.
+  all: try solve [left; congruence].
+  all: try (right; satm; norm; fin).
+Qed.
+
+(* ---- one stream per peer, as long as no OnDisconnect orphaned a sender record ---- *)
+Definition orphaning (e : event) : bool := match e with EDisc _ => true | _ => false end.
+
+(* without OnDisconnect every valid sender is the mapped one *)
+Definition mapped (s : state) : Prop :=
+  forall sd x, nth_error (senders s) sd = Some x -> sd_invalid x = false ->
+               mget (smap s) (sd_peer x) = Some sd.
+
+Lemma mapped_init : mapped init.
+Proof. unfold mapped. simpl. intros sd x H. destruct sd; discriminate. Qed.
+
+Lemma step_mapped s e s' :
+  Inv s -> failed_inv s -> mapped s -> orphaning e = false -> step s e = Some s' -> mapped s'.
+Proof.
+  intros I Mf Mv O H. unfold mapped, failed_inv in *.
   destruct e; try discriminate O; start_ev I H.
   all: try (match goal with Ht : mget (threads _) _ = Some _ |- _ => thread_facts I Ht end).
-  all: split; intros; unfold has_stream in *; proj; look; repeat caseq; norm; try fin.
+  all: intros; unfold has_stream in *; proj; look; repeat caseq; norm; try fin.
   all: try (satm; norm; fin).
-  match goal with
+  all: match goal with
   | Hx : nth_error (senders s) ?sd0 = Some ?x, Hi : sd_invalid ?x = false, He : sd_peer ?x = t_peer ?t0,
     Hm : mget (smap s) (t_peer ?t0) = Some ?sd, Ht : mget (threads s) _ = Some ?t0, Hp : t_pc ?t0 = PFailed ?sd _ |- _ =>
       pose proof (Mv _ _ Hx Hi) as A; rewrite He, Hm in A; injection A as <-;
@@ -281,19 +323,18 @@ Proof.
   end.
 Qed.
 
-Lemma run_mapped evs : forall s s', Inv s -> mapped s -> forallb (fun e => negb (orphaning e)) evs = true ->
-  run evs s = Some s' -> mapped s'.
+Lemma run_mapped evs : forall s s', Inv s -> failed_inv s -> mapped s ->
+  forallb (fun e => negb (orphaning e)) evs = true -> run evs s = Some s' -> mapped s'.
 Proof.
-  induction evs as [|e evs IH]; intros s s' I M F R; simpl in *.
-  - congruence.
+  induction evs as [|e evs IH]; intros s s' I Mf M F R; simpl in R, F.
+  - injection R as <-. exact M.
   - destruct (step s e) as [s1|] eqn:E; [|discriminate]. apply andb_prop in F. destruct F as [F1 F2].
-    apply (IH s1 s' (step_inv _ _ _ I E)); auto. eapply step_mapped; eauto.
+    apply (IH s1 s' (step_inv _ _ _ I E) (step_failed _ _ _ I Mf E)); auto. eapply step_mapped; eauto.
     destruct (orphaning e); [discriminate|reflexivity].
 Qed.
 
 (* exchanges with one peer go over at most one stream, as long as no sender
-   record was orphaned by a disconnect notification or by a cancelled wait for
-   the lock of a sender that was just created *)
+   record was orphaned by a disconnect notification *)
 Theorem one_stream_per_peer evs s st1 y1 st2 y2 :
   run evs init = Some s -> forallb (fun e => negb (orphaning e)) evs = true ->
   nth_error (streams s) st1 = Some y1 -> sm_cli y1 = COpen ->
@@ -301,14 +342,14 @@ Theorem one_stream_per_peer evs s st1 y1 st2 y2 :
   sm_peer y1 = sm_peer y2 -> st1 = st2.
 Proof.
   intros R F H1 C1 H2 C2 P. pose proof (reachable_inv _ _ R) as I.
-  pose proof (run_mapped evs init s Inv_init mapped_init F R) as M.
+  pose proof (run_mapped evs init s Inv_init failed_init mapped_init F R) as M.
   pose proof (open_rec s I _ _ H1 C1) as A1. pose proof (open_rec s I _ _ H2 C2) as A2.
   destruct (nth_error (senders s) (sm_owner y1)) as [x1|] eqn:X1; [|discriminate].
   destruct (nth_error (senders s) (sm_owner y2)) as [x2|] eqn:X2; [|discriminate].
   simpl in A1, A2. injection A1 as A1. injection A2 as A2.
   destruct (cur_rec s I _ _ _ X1 A1) as (V1 & _ & _ & P1). destruct (cur_rec s I _ _ _ X2 A2) as (V2 & _ & _ & P2).
   rewrite H1 in P1. rewrite H2 in P2. simpl in P1, P2. injection P1 as P1. injection P2 as P2.
-  pose proof (m_valid s M _ _ X1 V1) as M1. pose proof (m_valid s M _ _ X2 V2) as M2.
+  pose proof (M _ _ X1 V1) as M1. pose proof (M _ _ X2 V2) as M2.
   assert (sm_owner y1 = sm_owner y2) by congruence.
   eapply one_stream_per_sender; eauto.
 Qed.
